@@ -407,8 +407,8 @@ def _make_act(name):
 def max_pool1d(x, kernel_size, stride=None, padding=0, dilation=1, ceil_mode=False, return_indices=False):
     """arg-max positions are decided by forking (first maximum wins, like torch); implicit padding is -inf and is never
     selected; indices refer to the unpadded input (torch convention)"""
-    if dilation != 1 or ceil_mode:
-        raise Inconclusive("max_pool1d with dilation/ceil_mode is not modelled")
+    if dilation != 1:
+        raise Inconclusive("max_pool1d with dilation is not modelled")
     K = kernel_size if isinstance(kernel_size, int) else kernel_size[0]
     S = stride if stride else K
     S = S if isinstance(S, int) else S[0]
@@ -417,6 +417,11 @@ def max_pool1d(x, kernel_size, stride=None, padding=0, dilation=1, ceil_mode=Fal
         raise RuntimeError("pad should be at most half of effective kernel size")
     N, C, L = x.a.shape
     Lout = (L + 2 * P - K) // S + 1
+    if ceil_mode:
+        # torch: ceil instead of floor, and the last window must start inside the input or its left padding
+        Lout = -(-(L + 2 * P - K) // S) + 1
+        if (Lout - 1) * S >= L + P:
+            Lout -= 1
     out = np.empty((N, C, Lout), dtype=object)
     idx = np.empty((N, C, Lout), dtype=object)
     for n in range(N):
